@@ -78,6 +78,7 @@ class HistLab(object):
 def run_history(lab, mon, ops, rng=None, label="exhaustive"):
     ctx = lab.new()
     model = CtxModel()
+    model.set_root("aborted", False)        # (a new Context starts with aborted = False in its test-run scope)
     log = []            # cleanup ids in execution order
     counter = [0]
     raising = set()
@@ -92,16 +93,29 @@ def run_history(lab, mon, ops, rng=None, label="exhaustive"):
         cid = counter[0]
         if raises:
             raising.add(cid)
+        def boom():
+            # what real clean-up code raises: exceptions with no, one or several arguments
+            kind = cid % 5
+            if kind == 0:
+                raise OSError(2, "No such file or directory", "workdir-%d" % cid)
+            if kind == 1:
+                raise ValueError("cleanup %d" % cid, 42)
+            if kind == 2:
+                raise KeyError()
+            if kind == 3:
+                import subprocess
+                raise subprocess.CalledProcessError(3, ["rm", "-rf", "x%d" % cid])
+            raise RuntimeError("cleanup %d" % cid)
         if with_args:
             def cleanup(x, y=None):
                 log.append(cid)
                 if raises:
-                    raise RuntimeError("cleanup %d" % cid)
+                    boom()
         else:
             def cleanup():
                 log.append(cid)
                 if raises:
-                    raise RuntimeError("cleanup %d" % cid)
+                    boom()
         return cid, cleanup
 
     def do_pop():
@@ -199,6 +213,11 @@ def run_history(lab, mon, ops, rng=None, label="exhaustive"):
             else:
                 ctx.add_cleanup(fn)
             model.add_cleanup(cid)
+        elif op == "abort":
+            # context.abort() from whatever scope: the flag belongs to the test run (visible everywhere, survives the scope)
+            ctx.abort()
+            model.set_root("aborted", True)
+            mon.seen("abort_called_in_scope_depth", str(min(model.depth, 3)))
         elif op == "cl_same_fn_args":
             # ONE function registered twice with different arguments: two cleanups (only the very same call is a duplicate)
             cid1, _f1 = make_cleanup(False)
@@ -773,7 +792,7 @@ def run(spec, mon):
                     sink.seek(0)
                     sink.truncate()
         mon.count("exhaustive_histories_enumerated", idx if shard == 0 else 0)
-        ALL = OPS + ["set_none_a", "set_none_a", "create", "cl_nesting", "cl_nesting", "cl_same", "cl_same", "cl_same_layer_f", "cl_same_layer_s", "fx_nested", "push_r", "cl_layer_s", "cl_layer_t", "cl_layer_x", "fx_plain", "fx_composite", "user_mode_raise", "create", "scoped_ok", "scoped_exc", "scoped_ki", "scoped_exit", "fx_partial", "fx_partial", "fx_method", "cl_same_fn_args", "cl_same_fn_args",
+        ALL = OPS + ["set_none_a", "set_none_a", "create", "cl_nesting", "cl_nesting", "cl_same", "cl_same", "cl_same_layer_f", "cl_same_layer_s", "fx_nested", "push_r", "cl_layer_s", "cl_layer_t", "cl_layer_x", "fx_plain", "fx_composite", "user_mode_raise", "create", "scoped_ok", "scoped_exc", "scoped_ki", "scoped_exit", "fx_partial", "fx_partial", "fx_method", "cl_same_fn_args", "cl_same_fn_args", "abort", ("get", "aborted"), ("get", "aborted"), ("in", "aborted"),
                      ("set", "c"), ("get", "c"), ("del", "b"), ("in", "b"), ("root", "b"), ("get", "fx_value"), ("assign", "b")]
         for i in range(150 if tier == "quick" else 8000):
             ops = [rng.choice(ALL) for _ in range(rng.randint(5, 40))]
